@@ -58,7 +58,7 @@ MIRRORS = {
         ("c04", "r6_collect", (), ALL, "workers collect per-chunk totals additively"),
     ],
     "C07": [
-        ("c06", "r5_pickle", (), _has("KmerFinder"), "a pickled prefilter (spawned worker) must search the same windows"),
+        ("c06", "r5_pickle", (), _has("KmerFinder", "Aligner"), "a pickled prefilter / aligner (spawned worker) must search the same windows with the same minimum overlap: the prefilter is built for the configured overlap, an aligner that lost it reports shorter matches the prefilter rejects"),
     ],
     "C09": [
         ("c03", "r4_intervals", (), _has("LinkedMatch"), "a linked match keeps / masks exactly the interval between its parts"),
